@@ -51,7 +51,11 @@ type FaultCase struct {
 	// fault "io": the IONth step of kind IOKind (os.mkdir, os.create, os.readdir, badger.set) that the write
 	// performs fails once with an I/O error. Fresh: nothing was written before (no set-up writes), so that the
 	// write under test is the one that has to create the directories.
-	IOKind string `json:"io_kind,omitempty"`
+	// Stagger (fault "enospc"): the faulty roots do not all fail at the same offset: root number j (in the
+	// configured order) fails Pos>>j bytes into its file, so a root tried later may fail EARLIER than the one before
+	Stagger bool   `json:"stagger,omitempty"`
+	Repeat  int    `json:"repeat,omitempty"`
+	IOKind  string `json:"io_kind,omitempty"`
 	IONth  int    `json:"io_nth,omitempty"`
 	Fresh  bool   `json:"fresh,omitempty"`
 }
@@ -184,6 +188,20 @@ func waitHooksQuiet() {
 
 // ExecC10 performs one faulted write and checks "error => no trace, success => complete".
 func ExecC10(fc FaultCase) *ev.Result {
+	// Repeat (replays of findings that depend on the order in which fs_db tries the roots, which is a
+	// shuffle of its own): the case is executed up to Repeat times on fresh databases and fails if any
+	// execution fails
+	if fc.Repeat > 1 {
+		n := fc.Repeat
+		fc.Repeat = 0
+		var r *ev.Result
+		for i := 0; i < n; i++ {
+			if r = ExecC10(fc); r.Fail != "" {
+				return r
+			}
+		}
+		return r
+	}
 	r := &ev.Result{}
 	if fc.Roots < 1 {
 		fc.Roots = 1
@@ -257,15 +275,23 @@ func ExecC10(fc FaultCase) *ev.Result {
 			return size, nil
 		}
 		bad := false
+		pos := fc.Pos
 		for root := range faulty {
 			if strings.HasPrefix(path, root+"/") {
 				bad = true
+				if fc.Stagger {
+					for j, rt := range roots {
+						if rt == root {
+							pos = fc.Pos >> uint(j)
+						}
+					}
+				}
 			}
 		}
 		mu.Lock()
 		defer mu.Unlock()
 		off := written[path]
-		if bad && off+size > fc.Pos {
+		if bad && off+size > pos {
 			fired.Add(1)
 			allow := fc.Partial
 			if allow >= size { // a write that stored everything does not fail
